@@ -528,7 +528,11 @@ def tcbStatusCheck (fx : Fixes) (doc : TcbInfoDoc) (tee : Bytes) (pcesvn : Nat) 
 def applyMask (mask v : Bytes) : Bytes := List.zipWith (fun a b => a &&& b) mask v
 
 /-- `strings.EqualFold` on the hex strings involved: ASCII case folding -/
-def foldEq (a b : String) : Bool := a.toLower == b.toLower
+def lowerAscii (c : Char) : Char := if 'A' ≤ c ∧ c ≤ 'Z' then Char.ofNat (c.toNat + 32) else c
+
+/- One side is always the PCK certificate's FMSPC, lower-case hex digits: none of them has a non-ASCII fold partner, so
+   Unicode simple folding and ASCII folding decide the same.  (Character-wise, so that the kernel can evaluate it.) -/
+def foldEq (a b : String) : Bool := a.toList.map lowerAscii == b.toList.map lowerAscii
 
 /-- `verifyTdQuoteBody` -/
 def tdBodyCheck (fx : Fixes) (doc : TcbInfoDoc) (t : TdQuoteBody) (ext : PckExt.PckExtensions) : Outcome Unit := do
